@@ -715,6 +715,9 @@ pgmapFindFree(Length count)
 {
 	int	i, i0, iL;
 
+	/* a run longer than the map cannot exist (and i + count must fit an int) */
+	if (count > (Length) pgMapSize) return -1;
+
 	/* look after previous find */
 	for (i = pgmapFoundFreeLastTime ; i < pgMapSize; i++)
 		if (pgMap[i] == PgFree) {
